@@ -115,7 +115,7 @@ class SimNet:
         d1 = self.s_delay.ticks(self.max_delay_ticks)
         fault = None
         if self.faults_enabled:
-            for kind in ('drop_request', 'drop_response', 'duplicate'):
+            for kind in ('drop_request', 'drop_response', 'duplicate', 'cancel_handler'):
                 r = self.rates.get(kind, 0.0)
                 if r and self.s_fault.chance(r):
                     fault = kind
@@ -158,6 +158,17 @@ class SimNet:
             t2 = loop.create_task(dup(), context=svc.context.copy() if svc.context is not None else None)
             self.inflight.add(t2)
             t2.add_done_callback(self.inflight.discard)
+        if fault == 'cancel_handler':
+            # the client goes away mid-request and the server cancels the handler (aiohttp handler cancellation /
+            # server shutdown): CancelledError is thrown into the handler at a seeded later instant
+            ctx.fault('net.handler_cancelled')
+            loop.call_later(self.s_delay.ticks(40), task.cancel)
+            try:
+                await asyncio.wait([task])
+            finally:
+                pass
+            if task.cancelled() or task.exception() is not None:
+                raise aiohttp.ServerDisconnectedError()
         try:
             if t_total is not None:
                 done, _p = await asyncio.wait([task], timeout=max(t_total - d1, 0))
